@@ -90,6 +90,20 @@ def _pcacd_params(draw):
     }
 
 
+@st.composite
+def _cusum_params(draw):
+    p = {
+        "burn_in": draw(st.integers(2, 12)),
+        "delta": draw(st.sampled_from([0.0, 0.005, 0.5])),
+        "threshold": draw(st.sampled_from([0.5, 1, 2, 3, 5, 8])),
+        "direction": draw(st.sampled_from([None, "positive", "negative"])),
+    }
+    if draw(st.integers(0, 3)) == 0:  # known mean / standard deviation: the sums run from the first sample on
+        p["target"] = draw(st.integers(-20 * 16, 20 * 16).map(lambda k: k / 16))
+        p["sd_hat"] = draw(st.sampled_from([0.5, 1.0, 2.0, 4.0]))
+    return p
+
+
 def _hdm_params(div_choices):
     @st.composite
     def s(draw):
@@ -113,14 +127,7 @@ SPECS = {
         "menelaus.change_detection.CUSUM",
         "stream",
         "x",
-        st.fixed_dictionaries(
-            {
-                "burn_in": st.integers(2, 12),
-                "delta": st.sampled_from([0.0, 0.005, 0.5]),
-                "threshold": st.sampled_from([0.5, 1, 2, 3, 5, 8]),
-                "direction": st.sampled_from([None, "positive", "negative"]),
-            }
-        ),
+        _cusum_params(),
         st.just(1),
         univariate=True,
     ),
